@@ -539,6 +539,60 @@ def _run_case(case, mon):
                 mon.check(cp.coord == f.coords[pos] and cp.payload is f.payloads[pos], "getitem:element",
                           f"f[{pos}] returned ({cp.coord}, {cp.payload!r}), raw lists hold ({f.coords[pos]}, {f.payloads[pos]!r})")
                 mon.check(snap(subject) == before, "getitem:modified-tree", "f[pos] changed the tree")
+                form = (op["r"] >> 8) % 4
+                if (op["r"] >> 12) % 8 == 0:
+                    # a position outside the fiber is refused with IndexError, on either side, and nothing changes
+                    bad = len(f.coords) + (op["r"] >> 5) % 2 if (op["r"] >> 4) % 2 else -len(f.coords) - 1 - (op["r"] >> 5) % 2
+                    try:
+                        got = f[bad]
+                    except IndexError:
+                        mon.count("getitem_out_of_range_refused")
+                    else:
+                        mon.violation("getitem:out-of-range-accepted", f"f[{bad}] on a fiber of {len(f.coords)} elements returned {got!r} instead of raising IndexError")
+                    mon.check(snap(subject) == before, "getitem:modified-tree", "a refused f[pos] changed the tree")
+                elif form == 2 and isinstance(f.payloads[pos], Fiber):
+                    # n-D position access: one position per level, down to wherever the chain of positions ends
+                    chain, g, keys = [], f, []
+                    rr = op["r"] >> 3
+                    while isinstance(g, Fiber) and g.coords and len(keys) < 4:
+                        q = pos if not keys else rr % len(g.coords)
+                        q = q % len(g.coords)
+                        keys.append(q)
+                        chain.append((g.coords[q], g.payloads[q]))
+                        g = g.payloads[q]
+                        rr >>= 2
+                        if len(keys) >= 2 and rr % 3 == 0:
+                            break
+                    if len(keys) >= 2:
+                        cp = f[tuple(keys)]
+                        mon.count("reads_checked")
+                        mon.count("getitem_tuple_keys")
+                        ok, cur = True, cp
+                        for n, (cc, pp) in enumerate(chain):
+                            if not isinstance(cur, CoordPayload) or cur.coord != cc:
+                                ok = False
+                                break
+                            if n == len(chain) - 1:
+                                ok = cur.payload is pp
+                            cur = cur.payload
+                        mon.check(ok, "getitem:tuple-key", f"f[{tuple(keys)}] returned {cp!r}; the raw lists hold the chain {[c for c, _ in chain]} ending at {chain[-1][1]!r}")
+                        mon.check(snap(subject) == before, "getitem:modified-tree", "f[pos, pos, ...] changed the tree")
+                elif form == 3:
+                    # a slice of positions: a fiber of exactly those elements, holding the stored payloads themselves
+                    n = len(f.coords)
+                    a, b = sorted(((op["r"] >> 3) % (n + 2) - 1, (op["r"] >> 6) % (n + 2) - 1))
+                    st = 1 + (op["r"] >> 10) % 2
+                    a = None if (op["r"] >> 11) % 4 == 0 else a
+                    b = None if (op["r"] >> 13) % 4 == 0 else b
+                    sl = slice(a, b, st)
+                    idx = list(range(*sl.indices(n)))
+                    got = f[sl]
+                    mon.count("reads_checked")
+                    mon.count("getitem_slices")
+                    mon.check(isinstance(got, Fiber) and list(got.coords) == [f.coords[i] for i in idx]
+                              and len(got.payloads) == len(idx) and all(x is f.payloads[i] for x, i in zip(got.payloads, idx)),
+                              "getitem:slice", f"f[{a}:{b}:{st}] returned {got!r}; positions {idx} of the raw lists hold {[f.coords[i] for i in idx]}")
+                    mon.check(snap(subject) == before, "getitem:modified-tree", "f[a:b] changed the tree")
             elif k == "get_sp":
                 f, pre = _resolve(root, op["path"])
                 c = op["c"]
